@@ -31,7 +31,7 @@ FUNCTIONS = ['construct_repetition_code_circuit', 'get_circuit_qec_with_detector
              'get_ancilla_qubit_operation/get_operation/from_ordered_list', 'RepetitionCodeDescription.from_chain/from_initial_state/from_connectivity/get_operations',
              'DetectorOperation.to_stim_instruction', 'LogicalObservableOperation.to_stim_instruction', 'to_stim', 'DeclarativeCircuit.apply_modifiers/flatten']
 BOUNDS = {'quick': "enum: d in {2,3}, cycles 0..5, all 2^d data states (ancillas default), d=2 additionally every ancilla state; sym (all initial states of data and ancilla qubits "
-                   "at once): d in {2,3,4}, cycles 0..5; chain from length (refocusing on and off) and one 3-data-qubit sub-chain of Repetition9Code; as built, unrolled and flattened",
+                   "at once): d in {2,3,4}, cycles 0..5; chain from length (refocusing on and off) and one 3-data-qubit sub-chain of Repetition9Code (refocusing on and off); as built, unrolled and flattened",
           'thorough': "enum: d <= 3 all data x ancilla states, cycles 0..9; sym: d <= 6, cycles 0..9, every contiguous sub-chain (2..5 data qubits, cycles 0,1,2,3,4,6) of the three shipped layouts"}
 OUTSIDE = ["d > 5, cycles > 7", "non-computational initial states (PLUS/MINUS/...)", "noise", "the 'sym' mode relies on the exported circuits of different initial states differing only by I/X at "
            "one position per qubit, which is checked on all-ZERO / all-ONE / every single flip, not on all 2^(2d-1) vectors"]
@@ -65,11 +65,15 @@ def jobs(tier, seed):
         sc = lib.sub_chains('Repetition9Code', 3, 3)[0]
         for cycles in (0, 1, 3):
             out.append({'mode': 'sym', 'd': 3, 'cycles': cycles, 'desc': {'layout': 'Repetition9Code', 'involved': sc}})
+        for cycles in (2, 3):
+            out.append({'mode': 'sym', 'd': 3, 'cycles': cycles, 'desc': {'layout': 'Repetition9Code', 'involved': sc, 'refocus': False}})
     else:
         for name in lib.LAYOUTS:
             for sc in lib.sub_chains(name, 2, 5):
                 for cycles in (0, 1, 2, 3, 4, 6):
                     out.append({'mode': 'sym', 'd': (len(sc) + 1) // 2, 'cycles': cycles, 'desc': {'layout': name, 'involved': sc}})
+                for cycles in (2, 3):
+                    out.append({'mode': 'sym', 'd': (len(sc) + 1) // 2, 'cycles': cycles, 'desc': {'layout': name, 'involved': sc, 'refocus': False}})
     return out
 
 
